@@ -129,6 +129,9 @@ def run(F, ck, tier):
                   'get_inferred_elements passes %s to %s (argument %d) where the verifier\'s query round passes %s: the compressed path replays a different domain walk, so decompressed proofs differ from the original' % (
                       sorted(pb.get(key, [])), key[0], key[1], sorted(pa.get(key, []))), '%s:%d' % (b.file, b.line))
         ck.floor('R16.4', 'domain-walk argument positions compared', len(set(pa) | set(pb)), 4)
+        nonvac = sum(1 for v in list(pa.values()) + list(pb.values()) for r in v if 'A' in r)
+        ck.ob('R16.4', 'walk:non-vacuous', nonvac >= 6, '%d renderings mention an element of the arity schedule' % nonvac if nonvac >= 6 else
+              'the abstraction no longer recognises the arity-schedule element in the domain-walk arguments (%d renderings): the comparison would be vacuous' % nonvac)
     ck.decided += ['non-query fields carried verbatim', 'shared challenge derivation and final verifier', 'schedule traversed in order', 'inference replays the verifier walk']
     ck.undecided += ['round-trip equality of values', 'index-collision handling in path compression (values)']
     return 'Decides structural necessary conditions of C16. Round-trip value equality is not decided.'
